@@ -331,6 +331,9 @@ structure Interp (R : RingOps α) (φ : α → K) : Prop where
   lin : ∀ (xs : List ℚ) (vs : List α),
     (List.zipWith (fun x v => algebraMap ℚ K x * φ v) xs vs).sum = 0 →
       ∀ i, i < R.ncomp → dot xs (vs.map (fun v => (R.comps v).getD i 0)) = 0
+  colin : ∀ (xs : List ℚ) (vs : List α),
+    (∀ i, i < R.ncomp → dot xs (vs.map (fun v => (R.comps v).getD i 0)) = 0) →
+      (List.zipWith (fun x v => algebraMap ℚ K x * φ v) xs vs).sum = 0
 
 section Sound
 variable {R : RingOps α} {φ : α → K} [DecidableEq α]
@@ -392,6 +395,11 @@ theorem ratInterp : Interp (K := ℚ) ratOps (fun x : ℚ => x) where
     subst hi0
     rw [dot_eq_zipWith_sum, List.zipWith_map_right]
     simpa [ratOps] using h
+  colin := by
+    intro xs vs h
+    have := h 0 (by simp [ratOps])
+    rw [dot_eq_zipWith_sum, List.zipWith_map_right] at this
+    simpa [ratOps] using this
 
 lemma QD.toQA_re (D : ℚ) (v : QD) : (QD.toQA D v).re = v.1 := rfl
 lemma QD.toQA_im (D : ℚ) (v : QD) : (QD.toQA D v).im = v.2 := rfl
@@ -424,6 +432,14 @@ theorem qdInterp (D : ℚ) : Interp (qdOps D) (QD.toQA D) where
     interval_cases i
     · simpa [qdOps] using h1.symm
     · simpa [qdOps] using h2.symm
+  colin := by
+    intro xs vs h
+    obtain ⟨h1, h2⟩ := qd_sum_re_im D xs vs
+    have e0 := h 0 (by simp [qdOps])
+    have e1 := h 1 (by simp [qdOps])
+    ext
+    · rw [h1]; simpa [qdOps] using e0
+    · rw [h2]; simpa [qdOps] using e1
 
 /-- pairs read in any commutative ℚ-algebra with a square root `s` of `D` (ℝ, ℂ, a number field) -/
 lemma qdHomAlg {L : Type*} [CommRing L] [Algebra ℚ L] (D : ℚ) (s : L) (hs : s * s = algebraMap ℚ L D) :
@@ -748,6 +764,87 @@ theorem c07_no_invariants [DecidableEq α] (I : Interp R φ) (cfs : Env α) (k n
   intro j hj
   have := hspan x hx (relations_in_kernel I cfs monos n₀ _ x hrel) j (hx ▸ hj)
   simpa using this
+
+/-! ### the converse: a kernel vector of the window matrix is a relation for all `n ≥ n₀` -/
+
+/-- the term list of `Σ xⱼ·mⱼ(f(n))`, monomial by monomial (no cancellation across monomials) -/
+def relTerms [DecidableEq α] (R : RingOps α) (cfs : Env α) : List Mono → List ℚ → List (GTerm α)
+  | m :: ms, c :: cs => scaleTerms R c (normTerms R (substMono R cfs m)) ++ relTerms R cfs ms cs
+  | _, _ => []
+
+lemma evalK_relTerms [DecidableEq α] (h : IsHom R φ) (cfs : Env α) (n : ℕ) :
+    ∀ (monos : List Mono) (x : List ℚ), evalK φ (relTerms R cfs monos x) n =
+      aevalP (fun g => evalK φ (envOf cfs g) n) (polyOfVec monos x)
+  | [], _ => by simp [relTerms, polyOfVec]
+  | _ :: _, [] => by simp [relTerms, polyOfVec]
+  | m :: ms, c :: cs => by
+    rw [relTerms, evalK_append, evalK_scaleTerms h, evalK_normTerms h, evalK_substMono h,
+      evalK_relTerms h cfs n ms cs, polyOfVec, aevalP_cons]
+
+/-- the formal shape only depends on the (base, degree) keys -/
+lemma shapeOfG_congr [DecidableEq α] : ∀ (ts ss : List (GTerm α)),
+    ts.map (fun t => (t.base, t.deg)) = ss.map (fun t => (t.base, t.deg)) → shapeOfG ts = shapeOfG ss
+  | [], [], _ => rfl
+  | [], _ :: _, h => by simp at h
+  | _ :: _, [], h => by simp at h
+  | t :: ts, s :: ss, h => by
+    simp only [List.map_cons, List.cons.injEq, Prod.mk.injEq] at h
+    obtain ⟨⟨hb, hd⟩, ht⟩ := h
+    show insertShape t.base (t.deg + 1) (shapeOfG ts) = insertShape s.base (s.deg + 1) (shapeOfG ss)
+    rw [shapeOfG_congr ts ss ht, hb, hd]
+
+lemma keys_relTerms [DecidableEq α] (cfs : Env α) : ∀ (monos : List Mono) (x : List ℚ),
+    x.length = monos.length →
+    (relTerms R cfs monos x).map (fun t => (t.base, t.deg)) =
+      (monos.flatMap (fun m => normTerms R (substMono R cfs m))).map (fun t => (t.base, t.deg))
+  | [], _, _ => by simp [relTerms]
+  | m :: ms, [], h => by simp at h
+  | m :: ms, c :: cs, h => by
+    rw [relTerms, List.flatMap_cons, List.map_append, List.map_append,
+      keys_relTerms cfs ms cs (by simpa using h)]
+    congr 1
+    simp [scaleTerms, Function.comp_def]
+
+lemma windowOf_relTerms [DecidableEq α] (cfs : Env α) (monos : List Mono) (x : List ℚ)
+    (hx : x.length = monos.length) : windowOf (relTerms R cfs monos x) = windowK R cfs monos := by
+  rw [windowOf, windowK, windowOf, shapeOfG_congr _ _ (keys_relTerms cfs monos x hx)]
+
+lemma evalMatrix_row_mem (cfs : Env α) (monos : List Mono) (n₀ W j i : ℕ) (hj : j < W)
+    (hi : i < R.ncomp) :
+    (monos.map (fun m => monoVal R (fun g => evalTerms R (envOf cfs g) (n₀ + j)) m)).map
+      (fun v => (R.comps v).getD i 0) ∈ evalMatrix R cfs monos n₀ W := by
+  simp only [evalMatrix, List.mem_flatMap, List.mem_range, List.mem_map]
+  refine ⟨j, hj, i, hi, ?_⟩
+  have : tableAt R (valueTable R cfs n₀ W) j = fun g => evalTerms R (envOf cfs g) (n₀ + j) :=
+    funext (tableAt_valueTable R cfs n₀ W j hj)
+  rw [this, List.map_map, List.map_map]
+  rfl
+
+/-- **The window kernel is exactly the relation space** (converse of `relations_in_kernel`): a
+rational vector annihilated by all rows of the evaluation matrix on the window `windowK` gives a
+polynomial that vanishes on the goal sequences for every `n ≥ n₀`.  Hence a rejected instance of the
+C07 check always has a genuine witness among the kernel vectors. -/
+theorem kernel_vector_is_relation [DecidableEq α] (I : Interp R φ) (cfs : Env α) (monos : List Mono)
+    (n₀ : ℕ) (x : List ℚ) (hx : x.length = monos.length)
+    (hker : ∀ row ∈ evalMatrix R cfs monos n₀ (windowK R cfs monos), dot row x = 0) :
+    ∀ n, n₀ ≤ n → aevalP (fun g => evalK φ (envOf cfs g) n) (polyOfVec monos x) = 0 := by
+  intro n hn
+  rw [← evalK_relTerms I.hom]
+  refine evalK_vanish I.inj _ n₀ (fun j hj => ?_) n hn
+  rw [windowOf_relTerms cfs monos x hx] at hj
+  rw [evalK_relTerms I.hom, aevalP_polyOfVec]
+  have hsum := I.colin x (monos.map (fun m => monoVal R (fun g => evalTerms R (envOf cfs g) (n₀ + j)) m))
+    (fun i hi => by
+      rw [dot_comm]
+      exact hker _ (evalMatrix_row_mem cfs monos n₀ _ j i hj hi))
+  have hf : (fun (c : ℚ) (m : Mono) => algebraMap ℚ K c *
+        φ (monoVal R (fun g => evalTerms R (envOf cfs g) (n₀ + j)) m)) =
+      fun c m => algebraMap ℚ K c * aevalMono (fun g => evalK φ (envOf cfs g) (n₀ + j)) m := by
+    funext c m
+    rw [I.hom.map_monoVal]
+    simp only [I.hom.map_evalTerms]
+  rw [List.zipWith_map_right, hf] at hsum
+  exact hsum
 
 end C07
 
